@@ -19,7 +19,7 @@ BOUNDED = ['lfu', 'lru', 'mru', 'rr']
 
 B3 = ['lfu', 'lru', 'mru', 'rr'] * 3
 SPECS = {
-    'C01': dict(quick=(900, 70), thorough=(60000, 110), focus={'p_twin': 0.3}),
+    'C01': dict(quick=(1100, 70), thorough=(60000, 110), focus={'p_twin': 0.3, 'p_digits': 0.15}),
     'C02': dict(quick=(1000, 70), thorough=(60000, 110),
                 focus={'weights': {'clear': 0.5, 'setarch': 0.5, 'archived': 0.5, 'archset': 6}, 'p_prologue': 0.5,
                        'p_detach': 0.03, 'p_restage': 0.03, 'algs': ['no', 'inf'] + B3,
@@ -46,7 +46,9 @@ SPECS = {
                        'keymaps': ['hash', 'hash', 'hash', 'hash-typed', 'raw', 'raw', 'str', 'pickle', 'md5', 'default', 'raw-nf', 'str-nf',
                                    'pickle-std', 'pickle-std', 'pickle-std']}),
     'C18': dict(quick=(800, 60), thorough=(50000, 100),
-                focus={'weights': {'lookup': 14, 'key': 10, 'info': 4}, 'p_special': 0.4, 'p_float': 0.4}),
+                focus={'weights': {'lookup': 14, 'key': 10, 'info': 4}, 'p_special': 0.6, 'p_float': 0.4, 'p_special_call': 0.2,
+                       'keymaps': ['hash', 'hash', 'hash', 'raw', 'raw', 'str', 'md5', 'default', 'pickle', 'hash-typed', 'str-nf',
+                                   'md5-typed', 'pickle-std', 'raw-typed']}),
 }
 
 
